@@ -1,8 +1,8 @@
 CONSTANTS N = 3
-CONSTANT Configs <- OutcomeFull
+CONSTANT Configs <- OutcomeStop3
 SPECIFICATION MCSpec
 VIEW MCView
 CONSTRAINT ExecBound
-INVARIANTS TypeOK C04_Outcome
+INVARIANTS TypeOK C04_Outcome C04_HandlerLog C04_ReturnAgrees
 
 CHECK_DEADLOCK FALSE
